@@ -45,6 +45,7 @@ def make_chooser(seed, ctx):
             # leader did not make (near point masses) take the most probable outcome
             lst = follow.get(ctx["sid"], [])
             pn = p / tot
+            best = None
             for item in lst:
                 if item.get("used") or item["p"] is None or item["idx"] >= n:
                     continue
@@ -52,9 +53,16 @@ def make_chooser(seed, ctx):
                 m = max(len(q), len(pn))  # Fock cut-offs may differ between the twins: pad with zeros
                 qq = np.pad(q, (0, m - len(q)))
                 pp = np.pad(pn, (0, m - len(pn)))
-                if float(np.max(np.abs(qq - pp))) < 1e-4 and p[item["idx"]] > 1e-12:
-                    item["used"] = True
-                    return int(item["idx"])
+                dist = float(np.max(np.abs(qq - pp)))
+                if dist < 1e-4 and p[item["idx"]] > 1e-12:
+                    # the leader's draw of the same length that was not a point mass comes first: a
+                    # weakly populated outcome (1e-5) is within 1e-4 of a point-mass draw of the partner
+                    rank = (len(q) != n, float(q.max()) > 1 - 1e-9, dist)
+                    if best is None or rank < best[0]:
+                        best = (rank, item)
+            if best is not None:
+                best[1]["used"] = True
+                return int(best[1]["idx"])
             return int(np.argmax(p))
         k = ctx["nondeg"]
         ctx["nondeg"] += 1
@@ -164,6 +172,7 @@ def execute_run(
     seams.reset(mode=cfg.get("mode", "forced"), chooser=make_chooser(seed, ctx))
     world = World()
     world.op_specs = cfg.get("ops", {})
+    world.fresh_ops = bool(cfg.get("fresh_ops"))  # C15 twin: a new Operation object for every application
     rr = RunResult()
     rr.world = world
     if keep_snapshots:
@@ -261,7 +270,7 @@ def _account(rr, world, pre, post, r, res, ctx):
     key = json.dumps({k: v for k, v in cell.items()}, sort_keys=True)
     rr.cells.add(key)
     S = res.addressed
-    if do not in ("mk_env", "mk_custom", "mk_op", "mk_ce", "config"):
+    if do not in ("mk_env", "mk_custom", "mk_op", "mut_op", "mk_ce", "config"):
         pc = oracles._pre_class(pre, S) if S else "-"
         if pc in ("superposed", "entangled", "mixed"):
             rr.nontrivial_cells.add(key + pc)
